@@ -25,10 +25,10 @@ import (
 )
 
 var singleKinds = []string{"send", "send", "send", "send", "send", "send-self", "send-broke", "double-spend", "stake-new", "edit-stake-up", "edit-stake-up", "pause", "unpause",
-	"unstake", "bad-sig", "wrong-chain", "noncanonical", "dup-same", "low-fee", "change-param", "dao-transfer", "subsidy", "create-order", "big-memo", "hostile-amount", "future-height"}
+	"unstake", "bad-sig", "wrong-chain", "noncanonical", "dup-same", "low-fee", "change-param", "dao-transfer", "subsidy", "create-order", "create-order", "lock-orders", "lock-orders", "param-approved", "param-approved", "big-memo", "hostile-amount", "future-height"}
 var nestedKinds = []string{"send", "send", "send", "send", "send", "send-self", "send-broke", "double-spend", "bad-sig", "noncanonical", "low-fee", "big-memo", "hostile-amount",
-	"dex-order", "dex-order", "dex-deposit", "dex-withdraw", "subsidy"}
-var rootKinds = []string{"send", "send", "edit-stake-up", "dex-order", "dex-order", "dex-deposit", "send-broke"}
+	"dex-order", "dex-order", "dex-deposit", "dex-withdraw", "subsidy", "lock-orders", "lock-orders", "param-approved"}
+var rootKinds = []string{"send", "send", "edit-stake-up", "dex-order", "dex-order", "dex-deposit", "send-broke", "create-order-peer", "create-order-peer", "create-order-peer"}
 
 func mustMarshal(m any) []byte {
 	bz, err := lib.Marshal(m)
@@ -122,6 +122,34 @@ func runHistory(t *rapid.T, rec *ev.Rec, forceNestedEmptyDex bool) {
 			cs.Class("nested:rc-dex-cache(production)")
 		}
 
+	}
+	// governance voting mode, identical on all nodes: approve list (a validator in the first rounds of a height) or reject-all
+	if rapid.SampledFrom([]bool{true, true, false}).Draw(t, "approveListMode") {
+		for _, n := range h.sim.Nodes {
+			n.SetApproveList(true)
+		}
+		cs.Class("governance=approve-list")
+	} else {
+		cs.Class("governance=reject-all")
+	}
+	// state-aware generation: the open, unlocked sell orders buyers on this chain can lock
+	h.w.OpenOrders = func() [][]byte {
+		src, committee := h.P(), h.w.Chain
+		if h.root != nil {
+			src = h.root.Nodes[0]
+		}
+		h.sim.Activate(src)
+		book, err := src.C.FSM.GetOrderBook(committee)
+		if err != nil {
+			return nil
+		}
+		var ids [][]byte
+		for _, o := range book.Orders {
+			if len(o.BuyerReceiveAddress) == 0 {
+				ids = append(ids, o.Id)
+			}
+		}
+		return ids
 	}
 	heights := rapid.SampledFrom([]int{3, 3, 4, 4, 5, 6, 8, 12}).Draw(t, "heights")
 	if forceNestedEmptyDex {
@@ -240,6 +268,14 @@ func (h *hist) height(syncLockstep bool) {
 		for i := 0; i < n; i++ {
 			for _, tx := range h.w.GenTx(t, ht, h.kinds) {
 				h.offered = append(h.offered, tx.Bytes)
+				if tx.Proposal {
+					for _, n := range append(append([]*nodesim.Node{}, h.g.Nodes...), h.s) {
+						if err := n.ApproveProposal(tx.Bytes, true); err != nil {
+							h.fatalf("approve list: %v", err)
+						}
+					}
+					h.cs.Class("approved-proposal-offered")
+				}
 				// gossip: every mempool sees the transaction (admission may refuse it - same verdict expected everywhere)
 				ep, er := P.AddTx(tx.Bytes), R.AddTx(tx.Bytes)
 				if (ep == nil) != (er == nil) {
